@@ -196,23 +196,23 @@ type hop struct {
 }
 
 type delivery struct {
-	hops    []hop
-	lookups map[string][]net.IP // latest answer per host
-	failed  map[string]bool
-	first   map[string][]net.IP // first answer per host in this delivery (the first-hop check)
+	hops        []hop
+	lookups     map[string][]net.IP // latest answer per host
+	failed      map[string]bool
+	first       map[string][]net.IP // first answer per host in this delivery (the first-hop check)
 	firstFailed map[string]bool
 }
 
 type dmsg struct {
-	id      string
-	token   string
-	route   *RouteSpec
-	target  *DeliverSpec
-	sends   int // requests that reached the target URL in this enqueue cycle
-	records int
-	expect  *settlement
+	id       string
+	token    string
+	route    *RouteSpec
+	target   *DeliverSpec
+	sends    int // requests that reached the target URL in this enqueue cycle
+	records  int
+	expect   *settlement
 	conflict bool // a settlement for this message hit a lease conflict
-	done    string
+	done     string
 }
 
 type settlement struct {
@@ -224,17 +224,17 @@ type settlement struct {
 
 type DispatchWorld struct {
 	*SysWorld
-	Model   *Model
-	byID    map[string]*dmsg
-	byLease map[string]*dmsg
-	cur     map[*Task]*delivery // per worker: the delivery in progress
-	tokSeq  int
-	pub     []*dmsg
-	inDeliver map[string]*Task // message id -> worker currently between dequeue and settlement
+	Model      *Model
+	byID       map[string]*dmsg
+	byLease    map[string]*dmsg
+	cur        map[*Task]*delivery // per worker: the delivery in progress
+	tokSeq     int
+	pub        []*dmsg
+	inDeliver  map[string]*Task // message id -> worker currently between dequeue and settlement
 	interTrace string
 	settleLog  []string
 	taskItems  map[*Task][]queue.Envelope // what each worker holds (from its last dequeue)
-	expect     map[string]*settlement      // by lease id: the settlement the recorded outcome calls for
+	expect     map[string]*settlement     // by lease id: the settlement the recorded outcome calls for
 }
 
 func (w *DispatchWorld) add(rule, props, loc, format string, a ...any) {
